@@ -102,15 +102,23 @@ func zzC19_Summary_N3() {
 
 // Summaries used by the layout unit (natively the real functions run):
 // visibleLen -> the width term; stripANSICodes -> uninterpreted; truncateToWidth -> CUT with the
-// contract "" for w <= 0, otherwise some string at most w columns wide.
+// contract: "" for w <= 0, the ellipsis for w = 1, s itself when it fits, otherwise a string of w
+// or w-1 columns.
 func zzVisLenCut(s string) int   { return zzWidth(s) }
 func zzStripCut(s string) string { return zzStrip(s) }
 func zzTruncCut(s string, maxWidth int) string {
 	if maxWidth <= 0 {
 		return ""
 	}
+	if maxWidth <= 1 {
+		return "…"
+	}
+	if zzWidth(s) <= maxWidth {
+		return s
+	}
+	// cut to maxWidth-1 columns (one less if a wide character does not fit) plus the ellipsis
 	r := zzTruncUF(s, maxWidth)
-	zzAssume(zzWidth(r) <= maxWidth)
+	zzAssume(zzWidth(r) <= maxWidth && zzWidth(r) >= maxWidth-1)
 	return r
 }
 
@@ -123,6 +131,8 @@ func zzC19_TreeLine() {
 	tw := zzInt("termWidth")
 	zzAssume(tw >= 0 && tw <= 400)
 	zzAssume(zzWidth(task.ID) == len(task.ID)) // ids are ASCII
+	// stated bound: every text is at most 1000 columns wide (also keeps replayed strings small)
+	zzAssume(zzWidth(task.ID) <= 1000 && zzWidth(zzString("prefix")) <= 1000 && zzWidth(zzString("connector")) <= 1000 && zzWidth(zzString("icon")) <= 1000 && zzWidth(zzString("title")) <= 1000 && zzWidth(zzString("blocker")) <= 1000)
 	prefix, connector, icon := zzString("prefix"), zzString("connector"), zzString("icon")
 	line := formatTreeLine(prefix, connector, zzBool("showConnector"), icon, task.ID, zzString("title"), nil, zzString("blocker"), task, zzBool("ready"), zzBool("color"), tw)
 	zzAssert(zzWidth(line) >= tw-idRightMargin || tw < idRightMargin+idMinGap+len(task.ID), "C19/layout: the id never ends left of its right-hand column")
